@@ -565,6 +565,7 @@ func (w *Worker) runOnce() (cres ConcreteResult) {
 			}
 		}()
 		call(i, nil, 0, w.item.fn, nil)
+		i.checkIntSide()
 	}()
 	i.endRun()
 	e := w.exp
